@@ -42,7 +42,9 @@ build() { # flavour
 
 flavours_of() {
   case "$1" in
-    C01|C04|C09|C12|C18) echo "plain vec" ;;
+    C01|C04|C09|C12) echo "plain vec" ;;
+    C18)             echo "plain vec inst instvec" ;;
+    C17)             echo "plain inst" ;;
     C14|C15|C19)     echo "vec" ;;
     C16)             echo "vec instvec racevec" ;;
     C10)             echo "plain inst instvec race" ;;
